@@ -546,7 +546,11 @@ func c09Program(res *Result, src string, tests [][]int, wr int) {
 	base := circs[0]
 	na, nb := int(base.Inputs[0].Type.Bits), int(base.Inputs[1].Type.Bits)
 	var ins [][2]*big.Int
-	if na+nb <= 16 {
+	exh := 12
+	if thorough() {
+		exh = 16
+	}
+	if na+nb <= exh {
 		for a := 0; a < 1<<uint(na); a++ {
 			for b := 0; b < 1<<uint(nb); b++ {
 				ins = append(ins, [2]*big.Int{big.NewInt(int64(a)), big.NewInt(int64(b))})
